@@ -36,9 +36,26 @@ from pysnark.pack import PackBool, PackIntMod, PackList, PackRepeat
 OPS2 = ["+", "-", "*", "/", "//", "%", "<", "<=", ">", ">=", "==", "!=", "&", "|", "^", "<<", ">>", "**"]
 
 
+# fixed programs for Python idioms a maintainer may well start using (each must behave under pyvc's interpreter
+# exactly as under CPython): type identity, int subclasses, truthiness of containers, default arguments bound at
+# definition time, closures, slices, try/finally order, `or`/`and` returning operands, string formatting of ints
+LANGUAGE_PROGRAMS = [
+    "def prog():\n    return [type(3) is int, type(True) is bool, type(True) is int, type(2.5) is float, type(3) == int, isinstance(True, int), type('s') is str]\n",
+    "def prog():\n    class W(int):\n        pass\n    w = W(5)\n    return [type(w) is int, isinstance(w, int), w + 1, type(w + 1) is int, int(w) * 2]\n",
+    "def prog():\n    class E:\n        def __init__(s): s.lc = {}\n    e = E()\n    return [bool(e), bool(e.lc), bool([]), (e or 7) is e, ([] or 7), ({} and 3), (0 or None)]\n",
+    "k = 4\ndef f(x, m=k):\n    return x % m\ndef prog():\n    global k\n    k = 9\n    return [f(10), f(10, k)]\n",
+    "def prog():\n    out = []\n    def g():\n        try:\n            out.append('t')\n            raise KeyError('x')\n        except ValueError:\n            out.append('v')\n        finally:\n            out.append('f')\n    try:\n        g()\n    except KeyError as e:\n        out.append(type(e).__name__)\n    return out\n",
+    "def prog():\n    l = list(range(7))\n    l[1:] = [a + b for (a, b) in zip(l[1:], [10, 20])]\n    return [l, l[::-1][:2], l[-1], -7 // 2, -7 % 3, divmod(-7, 2), 7 >> 1, -1 >> 3, (1 << 70) % 1000]\n",
+    "def prog():\n    acc = []\n    for i, x in enumerate(['a', 'b']):\n        acc.append('%d:%s' % (i, x))\n    return [' '.join(acc), str(-5) + 'x', '{}-{}'.format(1, 2), repr((1, 'a')), abs(-3) == 3, (5).bit_length(), (-5).bit_length(), pow(3, 5, 7)]\n",
+    "def prog():\n    x = PrivVal(6)\n    return [isinstance(x, LinComb), type(x) is LinComb, type(x.value) is int, x.value.bit_length(), hasattr(x, 'lc'), getattr(x, 'nope', 1)]\n",
+    "def prog():\n    d = {}\n    d[3] = 1\n    d[3] += 1\n    e = dict(d)\n    e[4] = 0\n    return [sorted(e.items()), 3 in d, 4 in d, len(e), list(d) == [3], d.get(9, 'z'), {k: v * 2 for k, v in e.items()}]\n",
+    "class B:\n    n = 0\n    def __init__(self):\n        B.n += 1\n        self.i = B.n\n    def __bool__(self):\n        return self.i > 1\ndef prog():\n    a, b = B(), B()\n    return [bool(a), bool(b), B.n, (a or b) is b, not a]\n",
+]
+
+
 def gen_programs(seed, n):
     rnd = random.Random(seed)
-    progs = []
+    progs = list(LANGUAGE_PROGRAMS)
     vals = [0, 1, 2, 3, 5, 7, 12, -1, -4, 100, 255, 40000, -40000]
     for i in range(n):
         kind = rnd.choice(["bin", "bin", "bin", "bool", "fxp", "assert", "bits", "array", "ite", "pack", "guard", "snark"])
